@@ -763,3 +763,35 @@ pub fn transfer_to_new_account(
         vec![],
     )
 }
+
+/// Real `lending_pool_setup_emissions` (the emissions token account is `init`ed by the instruction: System Program
+/// CreateAccount with the PDA as signer + the token program's InitializeAccount3, both through the CPI stubs).
+#[allow(clippy::too_many_arguments)]
+pub fn setup_emissions(
+    b: &BankHandle,
+    delegate_emissions_admin: Pubkey,
+    emissions_mint: Pubkey,
+    emissions_funding_account: Pubkey,
+    token_program: Pubkey,
+    emissions_flags: u64,
+    emissions_rate: u64,
+    total_emissions: u64,
+) -> Instruction {
+    let (emissions_auth, _) = emissions_auth_pda(&b.bank, &emissions_mint);
+    let (emissions_token_account, _) = emissions_vault_pda(&b.bank, &emissions_mint);
+    build(
+        marginfi::accounts::LendingPoolSetupEmissions {
+            group: b.group,
+            delegate_emissions_admin,
+            bank: b.bank,
+            emissions_mint,
+            emissions_auth,
+            emissions_token_account,
+            emissions_funding_account,
+            token_program,
+            system_program: system_program::ID,
+        },
+        marginfi::instruction::LendingPoolSetupEmissions { flags: emissions_flags, rate: emissions_rate, total_emissions },
+        vec![],
+    )
+}
